@@ -87,6 +87,22 @@ func (e *csEnv) randomEvent(rng *rand.Rand, ps []poolView) chain.M {
 	tok := e.tokens[rng.Intn(len(e.tokens))]
 	p := e.findPool(ps, tok)
 	x := rng.Intn(100)
+	if p != nil && p.L == 0 && rng.Intn(3) == 0 {
+		// an emptied pool: donate one side, or add one-sidedly to a side whose
+		// reserve is zero (division by zero in AddUnilateralLiquidity)
+		if p.S == 0 && p.T == 0 {
+			ev := csEvent("Donate", u)
+			ev["to"], ev["denom"], ev["amt"] = p.esc, pick2(rng, e.std, tok), int64(1+rng.Intn(3))
+			return ev
+		}
+		ev := csEvent("AddUnilateral", u)
+		tk := tok
+		if p.S == 0 || (p.T != 0 && rng.Intn(2) == 0) {
+			tk = e.std
+		}
+		ev["denom"], ev["tok"], ev["amt"], ev["deadline"] = tok, tk, int64(1+rng.Intn(4)), e.now()+1
+		return ev
+	}
 	switch {
 	case p == nil && x < 60, x < 14:
 		ev := csEvent("AddLiquidity", u)
@@ -97,6 +113,9 @@ func (e *csEnv) randomEvent(rng *rand.Rand, ps []poolView) chain.M {
 			ev["min1"] = pick(rng, 0, 0, exact, exact, exact+1)
 		} else {
 			exact := int64(1 + rng.Intn(8))
+			if exact > p.S { // shares at most double per event (32-bit clauses)
+				exact = p.S
+			}
 			dep := p.T*exact/p.S + 1
 			mint := p.L * exact / p.S
 			ev["amt"], ev["amt2"] = exact, max1(dep+pick(rng, 0, 0, 0, -1, 1, 3))
@@ -149,6 +168,9 @@ func (e *csEnv) randomEvent(rng *rand.Rand, ps []poolView) chain.M {
 			T = p.S
 		}
 		amt := int64(1 + rng.Intn(8))
+		if T > 0 && amt > 3*T { // shares at most double per event
+			amt = 3 * T
+		}
 		mint := int64(0)
 		if T > 0 {
 			ud, g := e.par("uniDen"), e.par("uniDen")-e.par("uniNum")
@@ -268,7 +290,24 @@ func csRandom(fl *drv.Flags, rng *rand.Rand, w *chain.TraceWriter) {
 	for b := 0; b < fl.Len; b++ {
 		ps := e.poolViews()
 		var pending []chain.M
-		for j, n := 0, rng.Intn(4); j < n; j++ {
+		n := rng.Intn(4)
+		for _, p := range ps {
+			// values at most double per event: <= 16 -> <= 128 after three events,
+			// <= 32 after two, <= 64 after one; every clause product then fits 32 bits
+			m := p.S
+			if p.T > m {
+				m = p.T
+			}
+			if p.L > m {
+				m = p.L
+			}
+			if m > 32 && n > 1 {
+				n = 1
+			} else if m > 16 && n > 2 {
+				n = 2
+			}
+		}
+		for j := 0; j < n; j++ {
 			pending = append(pending, e.randomEvent(rng, ps))
 		}
 		e.runBlock(pending, int64(1+rng.Intn(2)), w)
